@@ -162,12 +162,30 @@ def run(rep: common.Report, tier: str, seed: int, replay=None) -> int:
     for k in range(n):
         specs.append(dict(shape=shapes[k % 3], holes=k % 3, terminals=[0, 2, 3, 4][k % 4], smooth=[0, 0, 2][k % 3],
                           max_edge_length=[0.6, 0.9, 1.4][(k // 3) % 3], xi=[0.5, 0.25, 1.0][(k // 2) % 3]))
+    for k, hk in enumerate(["L", "thinL", "C"] * (1 if tier == "quick" else 4)):
+        specs.append(dict(shape="box", holes=1 + k % 2, terminals=[2, 0][k % 2], smooth=0, max_edge_length=[0.6, 0.9][k % 2],
+                          xi=[0.5, 1.0][k % 2], hole_kind=hk))
     texts, infos = [], []
     for mi, spec in enumerate(specs):
-        dev = meshes.make_device(rng, holes=spec["holes"], terminals=spec["terminals"], smooth=spec["smooth"],
-                                 max_edge_length=spec["max_edge_length"], shape=spec["shape"], xi=spec["xi"])
+        try:
+            dev = meshes.make_device(rng, holes=spec["holes"], terminals=spec["terminals"], smooth=spec["smooth"],
+                                     max_edge_length=spec["max_edge_length"], shape=spec["shape"], xi=spec["xi"],
+                                     hole_kind=spec.get("hole_kind", "convex"))
+        except RuntimeError:
+            # twelve attempts with different outline resolutions all failed (mesh error, or terminals touching no boundary):
+            # build once more without terminals and check what the mesher produced
+            try:
+                dev = meshes.make_device(rng, holes=spec["holes"], terminals=0, smooth=spec["smooth"],
+                                         max_edge_length=spec["max_edge_length"], shape=spec["shape"], xi=spec["xi"],
+                                         hole_kind=spec.get("hole_kind", "convex"))
+            except RuntimeError:
+                rep.violation("no mesh could be generated for a device built from the documented primitives", {"mesh": mi, **spec})
+                continue
+            rep.violation("terminals placed across the film outline touch no mesh boundary (the mesh does not cover the film)",
+                          {"mesh": mi, **spec})
         U, kite, edge_tris, okm = check_mesh(rep, dev, spec, mi)
-        rep.nontrivial((spec["shape"], spec["holes"], spec["terminals"], spec["smooth"], spec["max_edge_length"]))
+        rep.nontrivial((spec["shape"], spec["holes"], spec["terminals"], spec["smooth"], spec["max_edge_length"],
+                        spec.get("hole_kind", "convex")))
         if mi < 3:
             rep.sample({**spec, "sites": len(dev.mesh.sites)})
         if mi < (4 if tier == "quick" else 12):
